@@ -209,3 +209,20 @@ F("integer-writer-repr", ["C11"], (T_, "        value = self.enforce_length(valu
 F("datetime-writer-isoformat", ["C11"], (T_, '        return format_datetime("%Y%m%d%H%M%S", value)', '        return format_datetime("%Y-%m-%dT%H:%M:%S", value)'))
 F("escape-html-quotes", ["C01"], (U_, "from xml.sax import saxutils\n", "from xml.sax import saxutils\nimport html\n"), (U_, "saxutils.escape(elem.text or \"\")", "html.escape(elem.text or \"\")"))
 B("escape-html-noquote", ["C01", "C11"], (U_, "from xml.sax import saxutils\n", "from xml.sax import saxutils\nimport html\n"), (U_, "saxutils.escape(elem.text or \"\")", "html.escape(elem.text or \"\", quote=False)"))
+
+# ---------------------------------------------------------------- C03 / placement and decode tables ; C01 extras
+F("prepend-list-members", ["C03"], (B_, "                args.append(value)", "                args.insert(0, value)"))
+F("store-under-raw-tag", ["C03", "C13"], (B_, "                kwargs[attrname] = value", "                kwargs[elem.tag] = value"))
+F("text-stripped-digits", ["C03"], (B_, "                value = elem.text\n", "                value = elem.text.lstrip(\"0\")\n"))
+F("bool-accepts-lowercase", ["C03"], (T_, '    mapping = {"Y": True, "N": False}', '    mapping = {"Y": True, "N": False, "y": True, "n": False}'))
+F("bool-table-swapped", ["C03"], (T_, '    mapping = {"Y": True, "N": False}', '    mapping = {"Y": False, "N": True}'))
+F("nbsp-not-decoded", ["C03"], (T_, 'saxutils.unescape(value, {"&nbsp;": " ", "&apos;": "\'", "&quot;": \'"\'})', 'saxutils.unescape(value, {"&apos;": "\'", "&quot;": \'"\'})'))
+F("amp-first-replace-loop", ["C03"], (T_, "        value = saxutils.unescape(value, {\"&nbsp;\": \" \", \"&apos;\": \"'\", \"&quot;\": '\"'})\n", "        for ent, ch in {\"&amp;\": \"&\", \"&lt;\": \"<\", \"&gt;\": \">\", \"&nbsp;\": \" \", \"&apos;\": \"'\", \"&quot;\": '\"'}.items():\n            value = value.replace(ent, ch)\n"))
+F("comma-not-accepted", ["C03"], (T_, "        try:\n            dec = decimal.Decimal(value)\n        except decimal.InvalidOperation:\n            dec = decimal.Decimal(value.replace(\",\", \".\"))\n", "        dec = decimal.Decimal(value)\n"))
+F("apply-args-reversed", ["C03"], (B_, "        for member in args:\n            if isinstance(member, Aggregate):", "        for member in reversed(args):\n            if isinstance(member, Aggregate):"))
+F("absent-child-default-empty", ["C03", "C04"], (B_, "            value = kwargs.pop(attr, None)", "            value = kwargs.pop(attr, \"\")"))
+F("get-reads-other-slot", ["C03"], (T_, "        return obj.__dict__[self.name]", "        return obj.__dict__.get(self.name.lower())"))
+B("amp-last-replace-loop", ["C03"], (T_, "        value = saxutils.unescape(value, {\"&nbsp;\": \" \", \"&apos;\": \"'\", \"&quot;\": '\"'})\n", "        for ent, ch in {\"&lt;\": \"<\", \"&gt;\": \">\", \"&nbsp;\": \" \", \"&apos;\": \"'\", \"&quot;\": '\"', \"&amp;\": \"&\"}.items():\n            value = value.replace(ent, ch)\n"))
+F("writer-omits-all-endtags", ["C01"], (U_, "    if len(elem) == 0:\n        text = \"<{}>{}{}\".format(", "    if len(elem) == 0 or not elem.text:\n        text = \"<{}>{}{}\".format("))
+F("indent-touches-leaf-text", ["C01"], (U_, "    else:\n        if level and (not elem.tail or not elem.tail.strip()):\n            elem.tail = i", "    else:\n        elem.text = (elem.text or \"\").strip() + \" \"\n        if level and (not elem.tail or not elem.tail.strip()):\n            elem.tail = i"))
+F("class-named-base", ["C01"], ("ofxtools/models/common.py", "class STATUS(Aggregate):", "class BASE(Aggregate):\n    foo = String(3)\n\n\nclass STATUS(Aggregate):"), ("ofxtools/models/common.py", '__all__ = ["SVCSTATUSES", "STATUS",', '__all__ = ["BASE", "SVCSTATUSES", "STATUS",'))
